@@ -400,6 +400,47 @@ class RecFaults(DefaultFaultHandlerBase):
         self._rec("IGNORE", transaction_id, cond, progress)
 
 
+DOCUMENTED_DEFAULT_TABLE = {
+    # DefaultFaultHandlerBase: "The initial default handle will be to cancel the transaction", except that checksum
+    # failures and unsupported checksum types "will be ignored by default"
+    "CANCEL_REQUEST_RECEIVED": "CANCEL", "POSITIVE_ACK_LIMIT_REACHED": "CANCEL", "KEEP_ALIVE_LIMIT_REACHED": "CANCEL",
+    "INVALID_TRANSMISSION_MODE": "CANCEL", "FILE_CHECKSUM_FAILURE": "IGNORE", "FILE_SIZE_ERROR": "CANCEL", "FILESTORE_REJECTION": "CANCEL",
+    "NAK_LIMIT_REACHED": "CANCEL", "INACTIVITY_DETECTED": "CANCEL", "CHECK_LIMIT_REACHED": "CANCEL", "UNSUPPORTED_CHECKSUM_TYPE": "IGNORE",
+}
+
+
+def fault_table_isolation_probe():
+    """Self-contained and self-cleaning: configure every condition of one fault handler object to a non-default code,
+    check that a second, newly constructed object still has the documented defaults, then restore the defaults on the
+    first (which also undoes process-wide state on a tree where the table is shared). Returns None or a description."""
+    a = RecFaults([], "probe1")
+    bad = None
+    try:
+        for name, code in DOCUMENTED_DEFAULT_TABLE.items():
+            a.set_handler(ConditionCode[name], FH_CODES["ABANDON" if code != "ABANDON" else "IGNORE"])
+        b = RecFaults([], "probe2")
+        for name, code in DOCUMENTED_DEFAULT_TABLE.items():
+            got = b.get_fault_handler(ConditionCode[name])
+            if got != FH_CODES[code]:
+                bad = f"after set_handler({name}, ...) on one fault handler object a newly constructed one has {name} -> {getattr(got, 'name', got)} instead of the default {code}"
+                break
+    finally:
+        for name, code in DOCUMENTED_DEFAULT_TABLE.items():
+            a.set_handler(ConditionCode[name], FH_CODES[code])
+    return bad
+
+
+def fault_table_pollution():
+    """A freshly constructed fault handler object must carry the documented default table whatever other
+    instances in the process were configured to. Returns None or a description of the difference."""
+    fresh = RecFaults([], "probe")
+    for name, code in DOCUMENTED_DEFAULT_TABLE.items():
+        got = fresh.get_fault_handler(ConditionCode[name])
+        if got != FH_CODES[code]:
+            return f"new fault handler object has {name} -> {getattr(got, 'name', got)} instead of the default {code}"
+    return None
+
+
 class TimerProvider(CheckTimerProvider):
     def __init__(self, src_ms, dst_ms):
         self.src_ms = src_ms
